@@ -390,17 +390,7 @@ func R14(p *core.Prog) *core.Result {
 						continue
 					}
 					n++
-					conv := false
-					if kc, ok := c.Common().Args[1].(*ssa.Call); ok {
-						if ks := kc.Common().StaticCallee(); ks != nil && core.FuncName(ks) == "Convert" && funcPkgPath(ks) == "reflect" {
-							// converted to the key type of a map type
-							if len(kc.Common().Args) == 2 {
-								if tc, ok := kc.Common().Args[1].(*ssa.Call); ok && tc.Common().IsInvoke() && tc.Common().Method.Name() == "Key" {
-									conv = true
-								}
-							}
-						}
-					}
+					conv := keyHasMapKeyType(p, c.Common().Args[1])
 					pos := p.Pos(c.Pos())
 					if conv {
 						r.Ok(".MAP-KEY-CONVERT", pos, core.FuncKey(f)+": the key is converted to the map's key type before SetMapIndex")
@@ -826,8 +816,21 @@ func R15(p *core.Prog) *core.Result {
 		}
 		for _, in := range b.Instrs {
 			if c, ok := in.(*ssa.Call); ok {
-				if sc := c.Common().StaticCallee(); sc != nil && core.FuncName(sc) == "feed" {
+				sc := c.Common().StaticCallee()
+				if sc != nil && core.FuncName(sc) == "feed" {
 					feedSeen = true
+				}
+				// the resets may have moved into a helper of the parser: what its entry block stores counts
+				if sc != nil && !feedSeen && sc.Blocks != nil && sc.Signature.Recv() != nil && len(c.Common().Args) > 0 && c.Common().Args[0] == ssa.Value(jp.Params[0]) && core.FuncName(sc) != "feed" {
+					for _, hin := range sc.Blocks[0].Instrs {
+						if hs, ok := hin.(*ssa.Store); ok {
+							if fld := fieldOfReceiver(sc, hs.Addr); fld != "" {
+								if _, ok := need[fld]; ok {
+									need[fld] = true
+								}
+							}
+						}
+					}
 				}
 			}
 			if s, ok := in.(*ssa.Store); ok && !feedSeen {
@@ -898,4 +901,116 @@ func (k *r15client) Return(s r15state, ret *ssa.Return) {
 			k.missing[f] = true
 		}
 	}
+}
+
+
+// keyHasMapKeyType: the value is X.Convert(T.Key()), or the result of a helper
+// that is handed T.Key() and returns, on every path, either a value converted
+// to that type or reflect.ValueOf(x) behind the test that the type IS the
+// static type of x (keyType == tString with tString = reflect.TypeOf("")).
+func keyHasMapKeyType(p *core.Prog, v ssa.Value) bool {
+	isKeyInvoke := func(a ssa.Value) bool {
+		tc, ok := a.(*ssa.Call)
+		return ok && tc.Common().IsInvoke() && tc.Common().Method.Name() == "Key"
+	}
+	isReflect := func(c *ssa.Call, name string) bool {
+		sc := c.Common().StaticCallee()
+		return sc != nil && sc.Name() == name && funcPkgPath(sc) == "reflect"
+	}
+	kc, ok := v.(*ssa.Call)
+	if !ok {
+		return false
+	}
+	if isReflect(kc, "Convert") {
+		return len(kc.Common().Args) == 2 && isKeyInvoke(kc.Common().Args[1])
+	}
+	h := kc.Common().StaticCallee()
+	if h == nil || h.Blocks == nil || !p.InModule(h) {
+		return false
+	}
+	var tp *ssa.Parameter
+	for i, a := range kc.Common().Args {
+		if isKeyInvoke(a) && i < len(h.Params) {
+			tp = h.Params[i]
+		}
+	}
+	if tp == nil {
+		return false
+	}
+	// static type of what a global of type reflect.Type was initialised with: G = reflect.TypeOf(<x>)
+	globalTypeOf := func(g *ssa.Global) types.Type {
+		init := g.Pkg.Func("init")
+		if init == nil {
+			return nil
+		}
+		for _, b := range init.Blocks {
+			for _, in := range b.Instrs {
+				st, ok := in.(*ssa.Store)
+				if !ok || st.Addr != ssa.Value(g) {
+					continue
+				}
+				c, ok := st.Val.(*ssa.Call)
+				if !ok || !isReflect(c, "TypeOf") || len(c.Common().Args) != 1 {
+					return nil
+				}
+				if mi, ok := c.Common().Args[0].(*ssa.MakeInterface); ok {
+					return mi.X.Type()
+				}
+				return nil
+			}
+		}
+		return nil
+	}
+	for _, b := range h.Blocks {
+		ret, ok := b.Instrs[len(b.Instrs)-1].(*ssa.Return)
+		if !ok {
+			continue
+		}
+		if len(ret.Results) != 1 {
+			return false
+		}
+		rc, ok := ret.Results[0].(*ssa.Call)
+		if !ok {
+			return false
+		}
+		if isReflect(rc, "Convert") && len(rc.Common().Args) == 2 && rc.Common().Args[1] == ssa.Value(tp) {
+			continue
+		}
+		if !isReflect(rc, "ValueOf") || len(rc.Common().Args) != 1 {
+			return false
+		}
+		mi, ok := rc.Common().Args[0].(*ssa.MakeInterface)
+		if !ok {
+			return false
+		}
+		// the return is reached only through the true edge of tp == G with G = reflect.TypeOf(<same static type>)
+		guarded := false
+		for d := b; d != nil && d.Idom() != nil; d = d.Idom() {
+			id := d.Idom()
+			iff, ok := id.Instrs[len(id.Instrs)-1].(*ssa.If)
+			if !ok || id.Succs[0] != d || len(d.Preds) != 1 {
+				continue
+			}
+			bo, ok := iff.Cond.(*ssa.BinOp)
+			if !ok || bo.Op != token.EQL {
+				continue
+			}
+			for _, pr := range [][2]ssa.Value{{bo.X, bo.Y}, {bo.Y, bo.X}} {
+				if pr[0] != ssa.Value(tp) {
+					continue
+				}
+				if ld, ok := pr[1].(*ssa.UnOp); ok && ld.Op == token.MUL {
+					if g, ok := ld.X.(*ssa.Global); ok {
+						if t := globalTypeOf(g); t != nil && types.Identical(t, mi.X.Type()) {
+							guarded = true
+						}
+					}
+				}
+			}
+		}
+		if !guarded {
+			return false
+		}
+	}
+	return true
 }
